@@ -46,7 +46,8 @@ Record payload := mkPay {
   p_err : option errstage;      (* where ZSTDMT_compressionJob fails, if it does *)
   p_chunks : list N;            (* compressed size of chunk 1, 2, ... (all but the last block) *)
   p_last : N;                   (* lastCBlockSize *)
-  p_win : win }.                (* LDM: window after ZSTD_ldm_generateSequences (trimmed to maxDist) *)
+  p_win : win }.                (* LDM: the window the run observed after ZSTD_ldm_generateSequences; no longer read by the model
+                                   (the trimming to maxDist is computed: [win_cap]); kept for the format of the driver's PAY line *)
 Definition pay0 := mkPay None [] 0 win0.
 
 Record fparams := mkFP {
@@ -145,8 +146,8 @@ Record wloc := mkW { w_pc : wpc; w_slot : nat; w_cctx : bool; w_seq : bool; w_la
 Definition w0 := mkW WIdle 0 false false 0.
 
 Record ghost := mkG {
-  g_out : list (N * N * N);     (* flush log: (job id, offset in the job's output, length) *)
-  g_fin : list (N * N);         (* (job id, total compressed size) of every fully flushed job, in order *)
+  g_out : list (N * N * N * N); (* flush log: (frame, job id, offset in the job's output, length) of every copy into the caller's buffer *)
+  g_fin : list (N * N * N);     (* (frame, job id, total compressed size) of every fully flushed job, in order *)
   g_ck : list (N * list (N * N * N)) }.   (* checksum appended: (job id, serial log at that time) *)
 
 Record state := mkS { mt : mtc; jobs : list job; sr : ser; pl : pools; cl : cloc; ws : list wloc; gh : ghost }.
@@ -227,11 +228,22 @@ Definition win_update (w : win) (src size : N) : win :=
   let el2 := if (el1 <? src + size) && (src <? eh1) then N.min (src + size) eh1 else el1 in
   (el2, eh1, pl1, ph1).
 
-Definition sub_range (a b : N * N) : bool := (snd a =? 0) || ((fst b <=? fst a) && (fst a + snd a <=? fst b + snd b)).
-(* the oracle window is accepted when it only shrinks the updated window (ZSTD_window_enforceMaxDist) *)
-Definition win_trim (w o : win) : win :=
-  let '(el, eh, plo, ph) := w in let '(oel, oeh, opl, oph) := o in
-  if sub_range (oel, oeh - oel) (el, eh - el) && sub_range (opl, oph - opl) (plo, ph - plo) then o else w.
+(* ZSTD_window_enforceMaxDist as ZSTD_ldm_generateSequences applies it (before every chunk, with the chunk's end): when the serial
+   section of a job is over, the window holds the last maxDist = 1 << windowLog bytes it has seen: the oldest ones are dropped first
+   (lowLimit = end - maxDist; dictLimit follows when it falls behind). *)
+Definition win_size (w : win) : N := let '(el, eh, plo, ph) := w in (eh - el) + (ph - plo).
+Definition win_cap (maxd : N) (w : win) : win :=
+  let '(el, eh, plo, ph) := w in
+  let tot := (eh - el) + (ph - plo) in
+  if tot <=? maxd then w
+  else let cut := tot - maxd in
+       if cut <=? eh - el then (el + cut, eh, plo, ph) else (eh, eh, plo + (cut - (eh - el)), ph).
+
+(* ZSTD_window_clear: lowLimit = dictLimit = end: both parts become empty, nextSrc stays.  ZSTDMT_serialState_ensureFinished applies it
+   to the published copy ldmWindow AND (fix of finding C11-ldm-wait-after-worker-error) to ldmState.window: a skipped job breaks the LDM
+   history; without the second clear the next job republishes a window that still covers the data before the gap, which no thread
+   ever releases (see MtLdmBug.v for the deadlock of the unrepaired protocol). *)
+Definition win_clear (w : win) : win := let '(el, eh, plo, ph) := w in (eh, eh, ph, ph).
 
 (* ------------------------------------------------------------------ *)
 (* condition variables                                                  *)
@@ -459,7 +471,7 @@ Definition complete_job (cfg : config) (s : state) : state :=
   let m := mt s in let k := slot cfg (done m) in let j := getj s k in
   let g := gh s in
   let s1 := set_job k (j_set_dst false (j_upd_flush 0 (j_ckneed j) (j_flushed j) j)) s in
-  let s2 := set_gh (mkG (g_out g) (g_fin g ++ [(j_id j, j_csize j)]) (g_ck g)) s1 in
+  let s2 := set_gh (mkG (g_out g) (g_fin g ++ [(fr m, j_id j, j_csize j)]) (g_ck g)) s1 in
   flush_return cfg (set_mt (mt_ring (done m + 1) (next m) (ready m) (ended m) (alldone m) m) s2).
 
 (* ZSTDMT_flushProduced after the wait loop *)
@@ -475,7 +487,7 @@ Definition flush_body (cfg : config) (s : state) : state :=
     if 0 <? cs then
       let c := cl s in
       let tf := N.min (cs - j_flushed j) (c_out c) in
-      let g2 := if 0 <? tf then mkG (g_out g1 ++ [(j_id j, j_flushed j, tf)]) (g_fin g1) (g_ck g1) else g1 in
+      let g2 := if 0 <? tf then mkG (g_out g1 ++ [(fr m, j_id j, j_flushed j, tf)]) (g_fin g1) (g_ck g1) else g1 in
       let fl := j_flushed j + tf in
       let j1 := j_upd_flush cs (if ck then false else j_ckneed j) fl j in
       let s1 := set_gh g2 (set_cl (cl_io (c_e2 c) (c_fwd c) (c_in c) (c_out c - tf) c) (set_job k j1 s)) in
@@ -619,10 +631,14 @@ Definition worker_step (cfg : config) (t : nat) (s : state) : option state :=
     | WSerial =>
         let r := sr s in
         if s_next r <? j_id jb then Some (set_w t (w_set_pc WSerialZ w) s)
+        else if negb (s_next r =? j_id jb) then Some (set_w t (after_serial cfg w jb py) s)
+             (* a later job failed and its ZSTDMT_serialState_ensureFinished moved serial.nextJobID past this job: the turn is lost, and it
+                does not advance the turn either (fix of finding C11-serial-turn-skipped-after-error: the increment and the broadcast are
+                inside the "nextJobID == jobID" block) *)
         else
           let mine := s_next r =? j_id jb in
           let dol := mine && ldm (mt s) in
-          let w1 := if dol then win_trim (win_update (s_w r) (j_src jb) (j_size jb)) (p_win py) else s_w r in
+          let w1 := if dol then win_cap (wsize (mt s)) (win_update (s_w r) (j_src jb) (j_size jb)) else s_w r in
           let r1 := mkSer (s_next r + 1) (if mine then s_log r ++ [(j_id jb, j_abs jb, j_size jb)] else s_log r) (s_skip r)
                           w1 (if dol then w1 else s_lw r) in
           let s1 := set_sr r1 (set_ws (wake_serial (ws s)) s) in
@@ -634,7 +650,7 @@ Definition worker_step (cfg : config) (t : nat) (s : state) : option state :=
     | WEnsure =>
         let r := sr s in
         let s1 := if s_next r <=? j_id jb
-                  then wake_caller_ldm (set_sr (mkSer (j_id jb + 1) (s_log r) true (s_w r) win0) (set_ws (wake_serial (ws s)) s))
+                  then wake_caller_ldm (set_sr (mkSer (j_id jb + 1) (s_log r) true (win_clear (s_w r)) (win_clear (s_lw r))) (set_ws (wake_serial (ws s)) s))
                   else s in
         Some (set_w t (after_ensure w) s1)
     | WRelSeq =>
